@@ -121,7 +121,8 @@ def one(ctx, scenario, seed, tags, dump_every=None, window=None):
             cases = re.findall(r"^  \(\{\| q_field := .*$", txt, re.M)
             i = res["api"]["disagreeing_queries"][0]
             if i < len(cases):
-                res["api"]["first_disagreeing_case"] = cases[i][:1500]
+                lits = dict(re.findall(r"^Definition (z\w+) : Z := (-?\d+)\.$", txt, re.M))
+                res["api"]["first_disagreeing_case"] = re.sub(r"\bz\w+\b", lambda m: lits.get(m.group(0), m.group(0)), cases[i])[:1500]
     try:
         os.remove(vfile)
     except OSError:
